@@ -1,10 +1,291 @@
 /-
-C17: invariants of `ReadCacheLookup` on the content-identity model and soundness of `find_path`.
+C17: invariants of `ReadCacheLookup` on the content-identity model (`parent_sound`, `stack_mirror`)
+and soundness of `find_path` (every returned byte string encodes a walk from the tracked root to the
+requested node, and is short enough).
 -/
 import ClvmProofs.Lemmas.BackrefProbe
 import ClvmModel.Serde.SerBr
 
 namespace Clvm.Backref
 open Clvm Clvm.Serde Clvm.Serde.ReadCache Clvm.Serde.SerBr
+
+/-- the child of a pair in a direction (`false` = first/left, `true` = rest/right) -/
+def child : Tree → Bool → Option Tree
+  | .pair l _, false => some l
+  | .pair _ r, true => some r
+  | .atom _, _ => none
+
+/-- walk a list of directions, first direction first -/
+def follow : List Bool → Tree → Option Tree
+  | [], t => some t
+  | d :: ds, t =>
+    match child t d with
+    | some c => follow ds c
+    | none => none
+
+/-! ### association maps -/
+
+theorem TMap.get?_upd {V : Type} (m : TMap V) (k k' : Tree) (d : V) (f : V → V) :
+    (m.upd k d f).get? k' = if k = k' then some (f ((m.get? k).getD d)) else m.get? k' := by
+  induction m with
+  | nil =>
+    by_cases h : k = k' <;> simp [TMap.upd, TMap.get?, h]
+  | cons x m ih =>
+    obtain ⟨k0, v⟩ := x
+    by_cases h0 : k0 = k
+    · subst h0
+      by_cases h : k0 = k' <;> simp [TMap.upd, TMap.get?, h]
+    · by_cases h : k = k'
+      · subst h
+        simp [TMap.upd, TMap.get?, h0, ih]
+      · by_cases h1 : k0 = k'
+        · subst h1; simp [TMap.upd, TMap.get?, h0, h]
+        · simp [TMap.upd, TMap.get?, h0, h1, ih, h]
+
+/-! ### `parent_sound`, `stack_mirror` -/
+
+/-- **parent_sound**: every recorded parent link is a true child relation -/
+def ParentSound (pl : TMap (List (Tree × Bool))) : Prop :=
+  ∀ X items, pl.get? X = some items → ∀ P d, (P, d) ∈ items → child P d = some X
+
+/-- **stack_mirror** (internal form): the tracked root is the read stack folded into a CLVM list -/
+def StackOk : Tree → List (Tree × Tree) → Prop
+  | root, [] => root = Tree.nil
+  | root, (id, prev) :: rest => root = Tree.pair id prev ∧ StackOk prev rest
+
+structure RInv (s : RCL) : Prop where
+  parents : ParentSound s.parentLookup
+  stack : StackOk s.root s.readStack
+
+theorem parentSound_upd (pl : TMap (List (Tree × Bool))) (X P : Tree) (d : Bool)
+    (h : ParentSound pl) (hc : child P d = some X) :
+    ParentSound (pl.upd X [] (· ++ [(P, d)])) := by
+  intro Y items hget P' d' hmem
+  rw [TMap.get?_upd] at hget
+  by_cases hxy : X = Y
+  · subst hxy
+    simp only [if_true, Option.some.injEq] at hget
+    subst hget
+    rcases List.mem_append.1 hmem with hm | hm
+    · cases hg : pl.get? X with
+      | none => simp [hg] at hm
+      | some its => simp only [hg, Option.getD_some] at hm; exact h X its hg P' d' hm
+    · simp only [List.mem_singleton, Prod.mk.injEq] at hm
+      obtain ⟨rfl, rfl⟩ := hm
+      exact hc
+  · simp only [hxy, if_false] at hget
+    exact h Y items hget P' d' hmem
+
+theorem RInv.new : RInv RCL.new :=
+  ⟨by intro X items h; simp [RCL.new, TMap.get?] at h, rfl⟩
+
+theorem RInv.push {s : RCL} (h : RInv s) (id : Tree) : RInv (s.push id) ∧ (s.push id).root = Tree.pair id s.root := by
+  refine ⟨⟨?_, ?_⟩, rfl⟩
+  · exact parentSound_upd _ _ _ _ (parentSound_upd _ _ _ _ h.parents rfl) rfl
+  · exact ⟨rfl, h.stack⟩
+
+theorem pop_spec {s s' : RCL} {item : Tree × Tree} (h : RInv s) (hp : s.pop = .ok (item, s')) :
+    RInv s' ∧ s.root = Tree.pair item.1 s'.root ∧ s'.parentLookup = s.parentLookup := by
+  unfold RCL.pop at hp
+  cases hrs : s.readStack with
+  | nil => simp [hrs] at hp
+  | cons it rest =>
+    simp only [hrs] at hp
+    cases h1 : decCount s.count it.1 with
+    | error e => simp [h1] at hp
+    | ok c1 =>
+      simp only [h1] at hp
+      cases h2 : decCount c1 s.root with
+      | error e => simp [h2] at hp
+      | ok c2 =>
+        simp only [h2, Except.ok.injEq, Prod.mk.injEq] at hp
+        obtain ⟨rfl, rfl⟩ := hp
+        have hst := h.stack
+        rw [hrs] at hst
+        obtain ⟨id, prev⟩ := it
+        exact ⟨⟨h.parents, hst.2⟩, hst.1, rfl⟩
+
+theorem pop2AndCons_spec {s s' : RCL} (h : RInv s) (hp : s.pop2AndCons = .ok s') :
+    RInv s' ∧ ∃ l r rest, s.root = Tree.pair r (Tree.pair l rest) ∧ s'.root = Tree.pair (Tree.pair l r) rest := by
+  unfold RCL.pop2AndCons at hp
+  cases h1 : s.pop with
+  | error e => simp [h1] at hp
+  | ok r1 =>
+    obtain ⟨right, s1⟩ := r1
+    simp only [h1] at hp
+    cases h2 : s1.pop with
+    | error e => simp [h2] at hp
+    | ok r2 =>
+      obtain ⟨left, s2⟩ := r2
+      simp only [h2, Except.ok.injEq] at hp
+      obtain ⟨i1, e1, p1⟩ := pop_spec h h1
+      obtain ⟨i2, e2, p2⟩ := pop_spec i1 h2
+      subst hp
+      let s3 : RCL := { s2 with
+        count := (s2.count.upd left.1 0 (· + 1)).upd right.1 0 (· + 1),
+        parentLookup := (s2.parentLookup.upd left.1 [] (· ++ [(Tree.pair left.1 right.1, false)])).upd right.1 []
+          (· ++ [(Tree.pair left.1 right.1, true)]) }
+      have i3 : RInv s3 :=
+        ⟨parentSound_upd _ _ _ _ (parentSound_upd _ _ _ _ i2.parents rfl) rfl, i2.stack⟩
+      obtain ⟨i4, e4⟩ := i3.push (Tree.pair left.1 right.1)
+      refine ⟨i4, left.1, right.1, s2.root, ?_, e4⟩
+      rw [e1, e2]
+
+/-! ### soundness of the breadth-first search -/
+
+/-- a partial path `(node, path)` climbs from `id` to `node`: walking `path` backwards from `node`
+reaches `id` -/
+def Good (id : Tree) (p : Partial) : Prop := follow p.2.reverse p.1 = some id
+
+/-- what `find_path` promises about a returned byte string -/
+def Found (s : RCL) (id : Tree) (maxBytes : Nat) (b : Bytes) : Prop :=
+  ∃ path, reversedPathToVecU8 path = .ok b ∧ follow path.reverse s.root = some id ∧
+    ∃ pl, atomLengthBits (path.length + 1) = .ok (some pl) ∧ pl ≤ maxBytes
+
+theorem itemsLoop_good (s : RCL) (id node : Tree) (mpl : Nat) (path : List Bool) (hg : Good id (node, path)) :
+    ∀ (items : List (Tree × Bool)) (np : List Partial) (seen : List Tree),
+      (∀ P d, (P, d) ∈ items → child P d = some node) → (∀ q, q ∈ np → Good id q) →
+      ∀ np' seen', itemsLoop s mpl path items np seen = some (np', seen') → ∀ q, q ∈ np' → Good id q := by
+  intro items
+  induction items with
+  | nil =>
+    intro np seen _ hnp np' seen' h
+    simp only [itemsLoop, Option.some.injEq, Prod.mk.injEq] at h
+    obtain ⟨rfl, _⟩ := h
+    exact hnp
+  | cons it items ih =>
+    intro np seen hit hnp np' seen' h
+    obtain ⟨parent, dir⟩ := it
+    unfold itemsLoop at h
+    have hit' : ∀ P d, (P, d) ∈ items → child P d = some node := fun P d hm => hit P d (List.mem_cons_of_mem _ hm)
+    split at h
+    · split at h
+      · cases h
+      · refine ih _ _ hit' ?_ _ _ h
+        intro q hq
+        split at hq
+        · rcases List.mem_append.1 hq with hq | hq
+          · exact hnp q hq
+          · simp only [List.mem_singleton] at hq
+            subst hq
+            unfold Good
+            simp only [List.reverse_append, List.reverse_cons, List.reverse_nil, List.nil_append,
+              List.singleton_append, follow]
+            rw [hit parent dir (List.mem_cons_self)]
+            exact hg
+        · exact hnp q hq
+    · exact ih _ _ hit' hnp _ _ h
+
+theorem partialLoop_sound (s : RCL) (hs : RInv s) (id : Tree) (maxBytes mpl : Nat) :
+    ∀ (pp : List Partial) (possible : List Bytes) (np : List Partial) (seen : List Tree),
+      (∀ q, q ∈ pp → Good id q) → (∀ b, b ∈ possible → Found s id maxBytes b) → (∀ q, q ∈ np → Good id q) →
+      ∀ r, partialLoop s maxBytes mpl pp possible np seen = .ok r →
+        match r with
+        | .ret possible' => ∀ b, b ∈ possible' → Found s id maxBytes b
+        | .cont possible' np' _ => (∀ b, b ∈ possible' → Found s id maxBytes b) ∧ (∀ q, q ∈ np' → Good id q) := by
+  intro pp
+  induction pp with
+  | nil =>
+    intro possible np seen _ hpos hnp r h
+    simp only [partialLoop, Except.ok.injEq] at h
+    subst h
+    exact ⟨hpos, hnp⟩
+  | cons p pp ih =>
+    intro possible np seen hpp hpos hnp r h
+    obtain ⟨node, path⟩ := p
+    have hg : Good id (node, path) := hpp _ List.mem_cons_self
+    have hpp' : ∀ q, q ∈ pp → Good id q := fun q hq => hpp q (List.mem_cons_of_mem _ hq)
+    unfold partialLoop at h
+    split at h
+    · rename_i hroot
+      split at h
+      · cases h
+      · rename_i pathLen halb
+        split at h
+        · rename_i hle
+          split at h
+          · cases h
+          · rename_i p hrp
+            refine ih _ _ _ hpp' ?_ hnp r h
+            intro b hb
+            rcases List.mem_append.1 hb with hb | hb
+            · exact hpos b hb
+            · simp only [List.mem_singleton] at hb
+              subst hb
+              refine ⟨path, hrp, ?_, pathLen, halb, hle⟩
+              have := hg
+              unfold Good at this
+              simp only at this
+              rw [hroot] at this
+              exact this
+        · exact ih _ _ _ hpp' hpos hnp r h
+      · exact ih _ _ _ hpp' hpos hnp r h
+    · split at h
+      · exact ih _ _ _ hpp' hpos hnp r h
+      · rename_i items hget
+        split at h
+        · simp only [Except.ok.injEq] at h
+          subst h
+          exact hpos
+        · rename_i np2 seen2 hil
+          refine ih _ _ _ hpp' hpos ?_ r h
+          exact itemsLoop_good s id node mpl path hg items np seen
+            (fun P d hm => hs.parents node items hget P d hm) hnp np2 seen2 hil
+
+theorem bfs_sound (s : RCL) (hs : RInv s) (id : Tree) (maxBytes mpl : Nat) :
+    ∀ (fuel : Nat) (pp : List Partial) (seen : List Tree), (∀ q, q ∈ pp → Good id q) →
+      ∀ res, bfs s maxBytes mpl fuel pp seen = .ok res → ∀ b, b ∈ res → Found s id maxBytes b := by
+  intro fuel
+  induction fuel with
+  | zero => intro pp seen _ res h; simp [bfs] at h
+  | succ fuel ih =>
+    intro pp seen hpp res h
+    unfold bfs at h
+    split at h
+    · simp only [Except.ok.injEq] at h; subst h; intro b hb; cases hb
+    · split at h
+      · cases h
+      · rename_i possible hpl
+        simp only [Except.ok.injEq] at h; subst h
+        exact partialLoop_sound s hs id maxBytes mpl pp [] [] seen hpp (fun _ hb => by cases hb)
+          (fun _ hq => by cases hq) _ hpl
+      · rename_i possible np seen' hpl
+        have := partialLoop_sound s hs id maxBytes mpl pp [] [] seen hpp (fun _ hb => by cases hb)
+          (fun _ hq => by cases hq) _ hpl
+        split at h
+        · simp only [Except.ok.injEq] at h; subst h; exact this.1
+        · exact ih np seen' this.2 res h
+
+theorem minBytes_mem : ∀ (l : List Bytes) (x : Bytes), minBytes l = some x → x ∈ l := by
+  intro l
+  induction l with
+  | nil => intro x h; cases h
+  | cons p ps ih =>
+    intro x h
+    unfold minBytes at h
+    split at h
+    · simp only [Option.some.injEq] at h; subst h; exact List.mem_cons_self
+    · rename_i q hq
+      simp only [Option.some.injEq] at h
+      split at h
+      · subst h; exact List.mem_cons_of_mem _ (ih q hq)
+      · subst h; exact List.mem_cons_self
+
+/-- **find_path_sound**: a returned path encodes a walk from the tracked root to `id` whose
+serialized atom is at most `serialized_length - 1` bytes long -/
+theorem findPath_sound (s : RCL) (hs : RInv s) (id : Tree) (sl : Nat) (b : Bytes)
+    (h : s.findPath id sl = .ok (some b)) : Found s id (sl - 1) b := by
+  unfold RCL.findPath at h
+  cases hfp : s.findPaths id sl with
+  | error e => simp [hfp] at h
+  | ok paths =>
+    simp only [hfp, Except.ok.injEq] at h
+    have hmem := minBytes_mem paths b h
+    unfold RCL.findPaths at hfp
+    split at hfp
+    · simp only [Except.ok.injEq] at hfp; subst hfp; cases hmem
+    · exact bfs_sound s hs id (sl - 1) _ _ [(id, [])] [id]
+        (fun q hq => by
+          simp only [List.mem_singleton] at hq; subst hq; rfl) paths hfp b hmem
 
 end Clvm.Backref
